@@ -1,6 +1,7 @@
 package h
 
 import (
+	"encoding/json"
 	"strings"
 	"time"
 
@@ -202,7 +203,7 @@ func C06_Jobs() []string {
 		ks := string(rune('0'+k/10)) + string(rune('0'+k%10))
 		out = append(out, "struct/"+ks, "prim/"+ks, "slice/"+ks, "ptr/"+ks)
 	}
-	out = append(out, "json", "json-ptr", "env", "longkey", "validate-nil-ptrs", "two-dest-types", "long-slices", "struct-input", "odd-tags/parse", "odd-tags/validate", "nil-body")
+	out = append(out, "json", "json-ptr", "env", "longkey", "validate-nil-ptrs", "two-dest-types", "long-slices", "struct-input", "odd-tags/parse", "odd-tags/validate", "nil-body", "iface-custom", "uncomparable-contains")
 	return out
 }
 func C06_Covers() []string { return []string{"returned"} }
@@ -342,6 +343,41 @@ func C06_Run(job string) {
 		v.Assert(n <= 5 || len(errs) == n-5+1+v.B2I(false), "C06:long-slice-result")
 		var ds struct{ L [][]int }
 		z.Struct(z.Schema{"l": z.Slice(z.Slice(z.Int()))}).Parse(map[string]any{"l": []any{in, in}}, &ds)
+	case "iface-custom":
+		// custom schemas over interface types, with inputs that do and do not satisfy them
+		k := jobNumSafe(v.Choice("val", c06NVals))
+		x := c06Value(k)
+		switch v.Choice("schema", 3) {
+		case 0:
+			var d interface{ String() string }
+			z.CustomFunc(func(p *interface{ String() string }, ctx z.Ctx) bool { return *p != nil }).Parse(x, &d)
+		case 1:
+			var d error
+			z.CustomFunc(func(p *error, ctx z.Ctx) bool { return true }).Parse(x, &d)
+		default:
+			var ds struct {
+				A any
+				E error
+			}
+			z.Struct(z.Schema{"a": z.CustomFunc(func(p *any, ctx z.Ctx) bool { return true }), "e": z.CustomFunc(func(p *error, ctx z.Ctx) bool { return true })}).Parse(x, &ds)
+		}
+	case "uncomparable-contains":
+		// Contains on slices whose elements cannot be compared with == (slices, maps, structs
+		// holding them): membership is by deep equality and never panics
+		n := v.Int("n")
+		var d1 [][]int
+		e1 := z.Slice(z.Slice(z.Int())).Contains([]int{1, 2}).Parse([]any{[]any{1, 2}, []any{n}}, &d1)
+		v.Assert(e1 == nil, "C06:long-slice-result")
+		type rec struct {
+			Name string
+			Meta any
+		}
+		var d2 []rec
+		z.Slice(z.Struct(z.Schema{"name": z.String(), "meta": z.CustomFunc(func(p *any, ctx z.Ctx) bool { return true })})).
+			Contains(rec{Name: "a", Meta: []any{1.0}}).
+			Parse(zjsonList(`{"l":[{"name":"a","meta":[1]},{"name":"b","meta":{"k":[2]}},{"name":"a","meta":{"k":1}}]}`), &d2)
+		d3 := []map[string]int{{"a": n}}
+		z.Slice(z.CustomFunc(func(p *map[string]int, ctx z.Ctx) bool { return true })).Contains(map[string]int{"a": 1}).Validate(&d3)
 	case "nil-body":
 		// a request without a body (http.NewRequest(method, url, nil) leaves Body nil) through
 		// every content type and method
@@ -456,4 +492,13 @@ func C06_Run(job string) {
 		c06Schema().Validate(&d)
 	}
 	v.Cover("returned")
+}
+
+func jobNumSafe(k int) int { return k }
+
+// the list under key "l" of a JSON document, as decoded by encoding/json
+func zjsonList(doc string) any {
+	var m map[string]any
+	json.NewDecoder(strings.NewReader(doc)).Decode(&m)
+	return m["l"]
 }
